@@ -6,7 +6,7 @@ Scenario (python dict; `to_sx` lowers it to the model's request):
   steps: list of ('timeout', dt) | ('data', dt, bytes) | ('eof', dt) | ('oserr', dt) | ('exc', dt) | ('selexc', dt)
   app:   dict event_index -> list of actions:
          ('text', payload_utf8_bytes, compress) | ('binary', bytes, compress) | ('ping', bytes) | ('pong', bytes)
-         | ('close', code|None, reason_bytes) | ('abandon', mechanism)   mechanism in break|raise|close|with|rebind
+         | ('close', code|None, reason_bytes) | ('abandon', mechanism)   mechanism in break|raise|close|with|rebind|hold
   keys:  list of 4-byte masking keys (one per frame built)
   wfaults: list of 'ok'|'oserr'|'exc' per sendall, in order
   ztape / ctape: see compression scenarios
@@ -290,6 +290,9 @@ def accept_for(key16):
 
 import weakref
 _HOLDERS = weakref.WeakKeyDictionary()
+# abandoned iterators that the application still references (mechanism 'hold'): WebSocket object -> generator.  They are
+# released by the NEXT connection on that object, right after its connect() call -- the reconnecting idiom `events = ws.connect()`
+_HELD = weakref.WeakKeyDictionary()
 
 
 class BusyLock(object):
@@ -473,6 +476,14 @@ def run_impl(sc, url="ws://example.test/chat", ws_kwargs=None, check_alias=True)
             gen = ws.connect(**kw)
             run.gen = gen
             try:
+                held = _HELD.pop(ws, None)
+            except TypeError:
+                held = None
+            if held is not None:
+                # `events = ws.connect()` has just rebound the only reference to the abandoned iterator of the previous connection
+                del held
+                gc.collect()
+            try:
                 if any(a[0] == "abandon" and a[1] == "with" for acts in app.values() for a in acts):
                     try:
                         with ws:
@@ -508,6 +519,12 @@ def run_impl(sc, url="ws://example.test/chat", ws_kwargs=None, check_alias=True)
                         gen2.close()
                         del gen2
                         run.sock, run.selector = first
+                    if mech == "hold":
+                        # the consumer left the loop but keeps the iterator (a variable that is only rebound by the next connect())
+                        try:
+                            _HELD[ws] = gen
+                        except TypeError:
+                            pass
                     if mech == "close":
                         gen.close()
                     elif mech == "raise":
